@@ -311,9 +311,9 @@ func (r *arRun) arReceiveAll() bool {
 			}
 			after := arDumpStorage(n, ca)
 			// C01 at the pool state the receive block leaves: applied, refunded or failed, the call left the sum unchanged. Judged
-			// after every call made BY a contract, every 4th failed call of a user and every 8th other receive (the walk over the
+			// after every call made BY a contract, every 8th failed call of a user and every 16th other receive (the walk over the
 			// pool is the expensive part); every receive is judged again with the momentum that confirms it and at the end
-			if blk := res.Transaction.Block; types.IsEmbeddedAddress(sendBlock.Address) || ((len(blk.Data) != 8 || common.BytesToUint64(blk.Data) != 1) && r.nRecv%4 == 0) || r.nRecv%8 == 0 {
+			if blk := res.Transaction.Block; types.IsEmbeddedAddress(sendBlock.Address) || ((len(blk.Data) != 8 || common.BytesToUint64(blk.Data) != 1) && r.nRecv%8 == 0) || r.nRecv%16 == 0 {
 				r.consPool(fmt.Sprintf("after the receive block %s/%d (data %s, %d descendants) that answers %s", arContractName(ca), res.Transaction.Block.Height,
 					hx(res.Transaction.Block.Data), len(res.Transaction.Block.DescendantBlocks), desc))
 			}
